@@ -5,6 +5,7 @@ import (
 	"go/constant"
 	"go/token"
 	"go/types"
+	"sort"
 	"strings"
 )
 
@@ -1274,4 +1275,133 @@ func lowerBoundLoop(info *types.Info, block []ast.Stmt, i int) (lo types.Object,
 		return lo, n, mid, ifs.Cond, 1, true
 	}
 	return
+}
+
+// unguardedIndexResults lists, for every function of the package, the uses of a "position or −1" result (slices.Index,
+// slices.IndexFunc, strings.Index…, bytes.Index…) as an index or slice bound that are not dominated by a test excluding −1
+// (i >= 0, i != -1, i > -1, !(i < 0), i == -1 / i < 0 on the leaving arm). With −1 the expression panics.
+func unguardedIndexResults(ix *PkgIndex) []string {
+	info := ix.Pkg.TypesInfo
+	isPosCall := func(e ast.Expr) bool {
+		call, ok := unparen(e).(*ast.CallExpr)
+		if !ok {
+			return false
+		}
+		cf := callee(info, call)
+		if cf == nil || cf.Pkg() == nil {
+			return false
+		}
+		switch cf.Pkg().Path() {
+		case "slices", "strings", "bytes":
+			return strings.HasPrefix(cf.Name(), "Index") || strings.HasPrefix(cf.Name(), "LastIndex")
+		}
+		return false
+	}
+	var bad []string
+	for _, f := range ix.All {
+		if f.Body() == nil {
+			continue
+		}
+		g := ix.FG(f)
+		vars := map[types.Object]bool{}
+		inspectNoLit(f.Body(), func(n ast.Node) bool {
+			if as, ok := n.(*ast.AssignStmt); ok && len(as.Lhs) == len(as.Rhs) {
+				for i, l := range as.Lhs {
+					if isPosCall(as.Rhs[i]) {
+						if o := objOf(info, l); o != nil {
+							vars[o] = true
+						}
+					}
+				}
+			}
+			return true
+		})
+		if len(vars) == 0 {
+			continue
+		}
+		for v := range vars {
+			// every assignment of v is a position call (otherwise it is not ours to judge)
+			other := false
+			inspectNoLit(f.Body(), func(n ast.Node) bool {
+				if as, ok := n.(*ast.AssignStmt); ok && len(as.Lhs) == len(as.Rhs) {
+					for i, l := range as.Lhs {
+						if id, isID := unparen(l).(*ast.Ident); isID && info.ObjectOf(id) == v && !isPosCall(as.Rhs[i]) {
+							other = true
+						}
+					}
+				}
+				return true
+			})
+			if other {
+				continue
+			}
+			nonNeg := func(e *GEdge) bool {
+				return edgeImplies(e, func(cnd ast.Expr, pol int) bool {
+					l, op, r, ok := cmpNorm(cnd, pol)
+					if !ok {
+						return false
+					}
+					if objOf(info, l) == v {
+						if k, isC := constInt(info, r); isC {
+							return (op == token.GEQ && k >= 0) || (op == token.GTR && k >= -1) || (op == token.NEQ && k == -1) || (op == token.EQL && k >= 0)
+						}
+					}
+					if objOf(info, r) == v {
+						if k, isC := constInt(info, l); isC {
+							return (op == token.LEQ && k >= 0) || (op == token.LSS && k >= -1) || (op == token.NEQ && k == -1) || (op == token.EQL && k >= 0)
+						}
+					}
+					return false
+				})
+			}
+			for _, x := range g.Nodes {
+				if x.N == nil {
+					continue
+				}
+				used := false
+				inspectNoLit(x.N, func(n ast.Node) bool {
+					mentions := func(e ast.Expr) bool {
+						hit := false
+						if e != nil {
+							ast.Inspect(e, func(m ast.Node) bool {
+								if id, ok := m.(*ast.Ident); ok && info.Uses[id] == v {
+									hit = true
+								}
+								return !hit
+							})
+						}
+						return hit
+					}
+					switch y := n.(type) {
+					case *ast.IndexExpr:
+						if _, isMap := info.TypeOf(y.X).Underlying().(*types.Map); !isMap && mentions(y.Index) {
+							used = true
+						}
+					case *ast.SliceExpr:
+						if mentions(y.Low) || mentions(y.High) || mentions(y.Max) {
+							used = true
+						}
+					case *ast.CallExpr:
+						// slices.Delete(s, i, j) / slices.Insert(s, i, …) index like s[i:j]
+						if cf := callee(info, y); cf != nil && cf.Pkg() != nil && cf.Pkg().Path() == "slices" && (cf.Name() == "Delete" || cf.Name() == "Insert" || cf.Name() == "Replace") {
+							for _, a := range y.Args[1:] {
+								if mentions(a) {
+									used = true
+								}
+							}
+						}
+					}
+					return true
+				})
+				if !used {
+					continue
+				}
+				if d, _ := g.DominatedByEdges(x, nonNeg); !d {
+					bad = append(bad, v.Name()+" (from "+"an Index… call) used at "+ix.M.posStr(x.N.Pos())+" in "+f.Name+" without excluding -1")
+				}
+			}
+		}
+	}
+	sort.Strings(bad)
+	return bad
 }
